@@ -6,6 +6,9 @@ use crate::seq::Which::*;
 use crate::seq::*;
 use crate::world::ExecCfg;
 
+/// server uptimes (ms) used as a data choice: 72 min (2^32 µs = 71.6 min), 50 days (2^32 ms = 49.7 days), 5 years
+pub const UPTIMES_MS: [u64; 3] = [72 * 60_000, 50 * 86_400_000, 5 * 365 * 86_400_000];
+
 fn cfg(name: &str, desc: &str, setup: Vec<Op>, alphabet: Vec<Op>, depth: usize) -> SeqCfg {
     SeqCfg {
         name: format!("seq/{}/n{}", name, depth),
@@ -51,6 +54,12 @@ pub fn core_units(thorough: bool) -> Vec<Unit> {
     let mut v = vec![];
     for n in if thorough { vec![4, 6, 7] } else { vec![4, 5] } {
         v.push(seq_unit(cfg("lease-lifecycle", "one topic, two subscriptions; acks / nacks / modifications singly and in mixed batches (stale or unknown id first, duplicate id), unary and as stream control messages, several coexisting deliveries with equal and different deadlines, every deadline probed", base_setup(), alphabet.clone(), n)));
+    }
+    // the same on a server that has been up for 72 minutes / 50 days (time since the deadline epoch as a data choice)
+    {
+        let mut c = cfg("lease-lifecycle-uptime", "the lease life-cycle alphabet after 72 minutes / 50 days / 5 years of (virtual) server uptime", base_setup(), alphabet.clone(), if thorough { 4 } else { 3 });
+        c.exec.uptime_choices_ms = UPTIMES_MS.to_vec();
+        v.push(seq_unit(c));
     }
     v
 }
@@ -256,6 +265,10 @@ pub fn c10(thorough: bool) -> Vec<Unit> {
         Op::CreateTopic(TQ),
         Op::CreateSub(SQ, TQ, 10),
         Op::ListSubs("q", 1),
+        // a third topic name: deletion orders among three
+        Op::CreateTopic(T1),
+        Op::DeleteTopic(T1),
+        Op::DeleteTopic(TQ),
     ];
     let mut v = vec![];
     for n in if thorough { vec![3, 5, 6] } else { vec![3, 4] } {
@@ -280,7 +293,10 @@ pub fn c11(thorough: bool) -> Vec<Unit> {
         Op::DeleteTopic(T0),
         Op::CreateSub(S0, T0, 10),
         Op::CreateSub(S1, T0, 10),
+        Op::CreateSub(S2, T0, 10),
         Op::DeleteSub(S0),
+        Op::DeleteSub(S1),
+        Op::DeleteSub(S2),
         Op::Publish(T0, 1),
         Op::Pull(S0, 10),
         Op::Pull(S1, 1),
@@ -375,7 +391,7 @@ pub fn c04_phase_sweep(thorough: bool) -> Unit {
         "input/phase-sweep",
         format!("hand-out at every {} phase of the server's 100 ms deadline grid x ack_deadline_seconds {:?} x (Pull | open StreamingPull): still leased 1 ms before the deadline (max(10, value) s), redelivered with a new ack id by deadline + {} ms, old ack id inert; three consecutive deadlines", if thorough { "0.5 ms" } else { "1 ms" }, dls_desc, SLACK_MS),
         Bounds::new(0),
-        ExecCfg { points_on: false, phase_choices: phases, ..Default::default() },
+        ExecCfg { points_on: false, phase_choices: phases, uptime_choices_ms: vec![0, UPTIMES_MS[0], UPTIMES_MS[1]], ..Default::default() },
         f,
     )
 }
